@@ -45,10 +45,17 @@ def gen_cases(tier, seed):
             s = stable_hash(seed, "C07", name, i)
             cases.append({"strategy": "saw", "entry": name, "seed": s, "cmode": CMODES[i % 3], "amode": AMODES[(i // 3 + s) % 3],
                           "regime": REGIMES[(s >> 3) % len(REGIMES)], "nmax": 9 if tier == "quick" else 14})
+    # exhaustive batches from a cold start with index candidates (wrapped strategies whose later utility rows are all
+    # -inf / tied, e.g. TypiClust once its clusters are used up)
+    for name in _inner_entries():
+        for i in range({"quick": 10, "thorough": 40}[tier]):
+            s = stable_hash(seed, "C07", "exhaust", name, i)
+            cases.append({"strategy": "saw", "entry": name, "seed": s, "cmode": ["idx", "none"][i % 2], "amode": "none", "regime": "cold",
+                          "nmax": 9 if tier == "quick" else 14, "bs": "all"})
     for i in range({"quick": 40, "thorough": 400}[tier]):
         s = stable_hash(seed, "C07", "iet", i)
         cases.append({"strategy": "iet", "entry": "IntervalEstimationThreshold", "seed": s, "cmode": CMODES[i % 3],
-                      "amode": ["none", "idx"][(i // 3) % 2], "regime": "rows", "nmax": 10})
+                      "amode": "none", "regime": "rows", "nmax": 10})
     for k, c in enumerate(cases):
         c["id"] = "%s-%s-%04d" % (c["strategy"], c["entry"], k)
     return cases
@@ -156,6 +163,8 @@ def run_case(desc):
     if n_pairs == 0:
         return {"status": "skip", "skip_reason": "no available pair"}
     bs = int([1, 2, 3, n_pairs, n_pairs + 2][rng.randint(5)])
+    if desc.get("bs") == "all":
+        bs = n_pairs + int(rng.randint(0, 3))
     k_exp = min(bs, n_pairs)
     nps = [1, 1, 2, 3, "array"][rng.randint(5)]
     if nps == "array":
@@ -191,7 +200,9 @@ def run_case(desc):
     # sample-level labels seen by the wrapped strategy (for the G22 trigger)
     cand_rows = rows_idx if cmode != "feat" else np.array([], int)
     some_cand_labelled = bool(len(cand_rows) and (~np.isnan(Y[cand_rows])).any(axis=1).any()) if cmode != "feat" else False
-    case_info = {"entry": e, "arbitrary_index_ok": None if e is None else e.arbitrary_index_ok, "some_candidate_labelled": some_cand_labelled}
+    cand_without_annotator = bool((M[rows_idx].sum(axis=1) == 0).any()) if len(rows_idx) else False
+    case_info = {"entry": e, "arbitrary_index_ok": None if e is None else e.arbitrary_index_ok, "some_candidate_labelled": some_cand_labelled,
+                 "candidate_without_annotator": cand_without_annotator}
     viol = []
 
     def add(kind, detail):
